@@ -33,6 +33,17 @@ def schedules(seed: int, cfg: int, k: int) -> List[Dict[str, Any]]:
 def build(seed: int, pid: str, ncfg: int) -> Tuple[Dict[str, Any], List[Dict[str, Any]]]:
     rs = Stream(seed, "workload", pid)
     opts = OPTS[pid]
+    if pid == "C04" and rs.chance(0.06):
+        # entities without curved edges (stacks with unequal tiers, shells, connectors, shapes over mapped sketches):
+        # their operations' points are all the geometry there is, so the cell-size oracle can judge them
+        if rs.sub("zoo").chance(0.5):
+            from . import zoo
+
+            progs = [zoo.gen_zoo_program(Stream(seed, "zoo", pid), h64(seed, "cfg", c) % (1 << 31), P.DICT_PATH, P.VTK_PATH, straight=True) for c in range(ncfg)]
+            if not progs[0]["meta"]["category"].startswith("construction-failed"):
+                return {"meta": progs[0]["meta"], "points": {}, "blocks": [], "chops": progs[0]["ops"]}, progs
+        progs = [P.gen_shape_program(Stream(seed, "shape", pid), h64(seed, "cfg", c) % (1 << 31), kinds=["tstack", "tstack", "stack"]) for c in range(ncfg)]
+        return {"meta": progs[0]["meta"], "points": {}, "blocks": [], "chops": progs[0]["ops"]}, progs
     if pid in ("C01", "C02") and rs.chance(opts.get("p_shapes", 0.14 if pid == "C02" else 0.08)):
         if rs.sub("zoo").chance(0.45):
             # the less common entities (elbows, sketch-based shapes and stacks, shells, connectors, wedges, ...)
@@ -252,7 +263,14 @@ def evaluate(pid: str, program: Dict[str, Any], scheds: List[Dict[str, Any]], pr
             except Exception as e:
                 vs.append(P.Violation("C01", "second-write-unparsable", repr(e)))
         vs += P.oracle_outcome(program, verdict, res, pre_files)
-        v4, st4 = ([], {}) if shapes else P.oracle_sizes(program, asm, names, verdict, res, parsed)
+        if not shapes:
+            v4, st4 = P.oracle_sizes(program, asm, names, verdict, res, parsed)
+        elif pid == "C04" and parsed is not None and not parsed.edges and res.snapshot is not None:
+            # a shape-built assembly whose edges are all straight: judged like the equivalent hex-only program
+            v4, st4 = P.oracle_sizes(P.hex_program_from_snapshot(res.snapshot), asm, names, verdict, res, parsed)
+            st4["straight_shape_programs_sized"] = 1
+        else:
+            v4, st4 = [], {}
         vs += v4
         for k, v in st4.items():
             stats[k] = stats.get(k, 0) + v
